@@ -6,6 +6,7 @@ package known
 
 import (
 	"grol.io/grol/ast"
+	"strings"
 	"verif/gen"
 	"verif/pbt"
 )
@@ -48,6 +49,8 @@ func startsWithSign(n *gen.Node) bool {
 		switch n.K {
 		case gen.KPrefix:
 			return signOp(n.S)
+		case gen.KInt:
+			return strings.HasPrefix(n.S, "-") // the smallest integer is written with its sign
 		case gen.KInfix:
 			l := n.Kids[0]
 			if l.K == gen.KInfix && gen.Prec(l.S) < gen.Prec(n.S) {
@@ -148,6 +151,8 @@ func astStartsWithSign(n ast.Node) bool {
 		switch x := n.(type) {
 		case *ast.PrefixExpression:
 			return signOp(x.Literal())
+		case *ast.IntegerLiteral:
+			return strings.HasPrefix(x.Literal(), "-")
 		case *ast.InfixExpression:
 			if lp, ok := astPrec(x.Left); ok {
 				if p, _ := astPrec(x); lp < p {
